@@ -135,6 +135,14 @@ const mhead = "module m { namespace \"urn:m\"; prefix m; "
 
 func (r *runner) arguments() {
 	idStrings := []string{"a", "_a", "a-b.c", "A9", "1a", "-a", ".a", "a b", "xmlfoo", "XmLa", "xm", "é", "", "a:b", "a/b", "a*", "a_", "a..b", "a\u00a0", "\fa", "a\u200b", "xml", "XML", "xMl", "Xml", "xm-l", "xmlx", "x", "_xml"}
+	// every ASCII character (and one character of each longer encoding) behind, in front of and
+	// inside an identifier
+	for b := rune(1); b <= 0x7f; b++ {
+		idStrings = append(idStrings, "a"+string(b)+"c", string(b)+"a", "a"+string(b))
+	}
+	for _, b := range []rune{0xe9, 0x0142, 0x20ac, 0x4e0a, 0x1f600, 0xff21} {
+		idStrings = append(idStrings, "a"+string(b)+"c", string(b)+"a")
+	}
 	kinds := []argKind{
 		{"identifier", []string{"leaf %s { type string; }", "container %s;", "grouping %s;", "feature %s;", "identity %s;", "extension %s;", "typedef %s { type string; }", "choice c { case %s; }", "rpc %s;"},
 			b2(rfc6020.Identifier), idStrings},
@@ -161,13 +169,13 @@ func (r *runner) arguments() {
 		{"key", []string{"list l { key %s; leaf a { type string; } leaf b { type string; } }"}, rfc6020.Key,
 			[]string{"a", "a b", "a  b", "a\tb", "a\nb", " a", "a ", "a,b", "a/b", "/a", "1a", "", "a a", "m:a", "xmla",
 				// separators that are white space for Unicode but not for RFC 6020 (sep = SP / HTAB / CRLF / LF)
-				"a\fb", "a\vb", "a\u00a0b", "a\u0085b", "a\u2028b", "a\u3000b", "a\u00a0", "a\r\nb", "a\rb"}},
+				"a\fb", "a\vb", "a\u00a0b", "a\u0085b", "a\u2028b", "a\u3000b", "a\u00a0", "a\r\nb", "a\rb", "a^ b", "a b]", "a[1]", "a\\", "b`", "a@"}},
 		{"unique", []string{"list l { key a; unique %s; leaf a { type string; } leaf b { type string; } container c { leaf d { type string; } } }"}, b2(rfc6020.Unique),
 			[]string{"b", "b c/d", "c/d", "m:b", "c/m:d", "/b", "b/", "b//c", "b c/", "", " b", "1b", "b,c", "b\fc/d", "b\vc/d", "b\u00a0c/d", "b\u2028c/d", "b\u3000c/d", "b\tc/d", "b\nc/d"}},
 		{"absolute-schema-nodeid", []string{"deviation %s { deviate not-supported; }", "augment %s { leaf z { type string; } }"}, b2(rfc6020.AbsoluteSchemaNodeid),
-			[]string{"/m:a", "/m:a/m:b", "/a", "/a/b", "m:a", "a", "/", "/m:a/", "//a", "/m:1a", "/m:a b", "", "/m:a/..", "/m:a[k=1]"}},
+			[]string{"/m:a", "/m:a/m:b", "/a", "/a/b", "m:a", "a", "/", "/m:a/", "//a", "/m:1a", "/m:a b", "", "/m:a/..", "/m:a[k=1]", "/m:a^b", "/m:a/m:b]", "/m:a\\b", "/m:a`", "/m:a@b", "/m:a~", "/m^m:a", "/m:a/m:b[1]"}},
 		{"descendant-schema-nodeid", []string{"uses g { refine %s { description \"d\"; } }"}, b2(rfc6020.DescendantSchemaNodeid),
-			[]string{"a", "a/b", "m:a/m:b", "/a", "a/", "a//b", "", "1a", "a b", "../a"}},
+			[]string{"a", "a/b", "m:a/m:b", "/a", "a/", "a//b", "", "1a", "a b", "../a", "a^b", "a/b]", "a[1]", "a\\b", "a`", "a@b"}},
 		{"fraction-digits", []string{"leaf l { type decimal64 { fraction-digits %s; } }"}, b2(rfc6020.FractionDigits),
 			[]string{"1", "2", "9", "10", "18", "19", "0", "01", "1.0", "-1", "", "+1", "100"}},
 		{"yang-version", []string{"yang-version %s;"}, func(s string) (bool, bool) { return s == "1", s != "1.1" }, []string{"1", "2", "1.0", "1.1", "", "01", "one"}},
